@@ -14,7 +14,7 @@ from .. import arr as A
 from ..report import Finding
 from ..shims import Key
 from .common import *
-from .convspec import conv_definition
+from .convspec import conv_definition, option_box
 
 BIAS = ["auto", "mean", "scalar", True, False]
 
@@ -172,6 +172,10 @@ def run(ctx):
                 continue
             jobs.append((ctx.repo, D, isig, osig, False, "TORUS", 1, 1, None, (True,) * D, (), True))
             jobs.append((ctx.repo, D, isig, osig, False, "SAME", 1, 1, None, (False,) * D, (), True))
+    # the option box shared by C01 / C04 / C06 / C11, one signature with two types on each side, bias 'auto'
+    for D in (2, 3) if th else (2,):
+        for padding, stride, rd, ld, flags in option_box(D, (4, 5) if D == 2 else (3, 4, 3)):
+            jobs.append((ctx.repo, D, sigs[1][0], sigs[1][1], "auto", padding, stride, rd, ld, flags, (), False))
     by = {}
     for job, r in ctx.pairs(worker, jobs):
         cfg = r["cfg"]
